@@ -34,12 +34,43 @@ func runC17(c *sim.Ctx) {
 	a.Ceiling = c08Ceiling
 	c.SetupAlloc(a)
 	st := c.Tape.S("ops")
+	// the span-cache switch is a configuration of the decoders: failures must be classified
+	// the same way under both settings
+	span := cfg.Chance(1, 2)
+	thrift.SetSpanCache(span)
+	defer thrift.SetSpanCache(false)
+	if span {
+		c.Count("cfg.span_cache_on")
+	}
+	heldErrors = heldErrors[:0]
 	n := 1 + cfg.Choose(4)
 	for k := 0; k < n; k++ {
 		streamErrorClause(c, cfg, st)
 		inMemoryClause(c, st)
+		recheckHeld(c)
 	}
 	mcache.SimCheckPoison()
+}
+
+// An error value returned to the caller is the caller's: it must keep matching the source's
+// error after the reader that produced it was recycled and reused for another stream.
+type heldError struct {
+	err, injected error
+	site          string
+}
+
+var heldErrors []heldError
+
+func recheckHeld(c *sim.Ctx) {
+	for _, h := range heldErrors {
+		if !errors.Is(h.err, h.injected) {
+			c.Fail("ERRTYPE", h.site, sim.F{"injected": errKind(h.injected), "stream": true, "later": true},
+				"an error returned earlier (it matched the source's error %v then) no longer matches it after the reader was recycled and reused: now %v", h.injected, h.err)
+		}
+	}
+	if len(heldErrors) > 0 {
+		c.Count("probe.held_error_rechecked")
+	}
 }
 
 func checkIs(c *sim.Ctx, site string, err, injected error, what string) {
@@ -62,6 +93,9 @@ func checkIs(c *sim.Ctx, site string, err, injected error, what string) {
 		c.Fail("ERRTYPE", site, sim.F{"injected": "wrapped-chain", "stream": true}, "%s failed with %v: the cause chain of the source's error (io.ErrClosedPipe) is no longer reachable", what, err)
 	}
 	c.Count("probe.stream_error." + errKind(injected))
+	if len(heldErrors) < 8 {
+		heldErrors = append(heldErrors, heldError{err, injected, site})
+	}
 }
 
 // streamErrorClause: failures of the stream reader caused by the underlying reader wrap
